@@ -1,6 +1,7 @@
 import SedpackDriver.Util
 import SedpackDriver.Hash
 import SedpackDriver.Filler
+import SedpackDriver.Pool
 open Lean
 namespace Sedpack.Drv
 
@@ -8,6 +9,7 @@ def dispatch (m : String) (j : Json) : Except String Json :=
   match m with
   | "hash" => hash j
   | "fill" => fill j
+  | "pool" => pool j
   | _ => .error s!"unknown model {m}"
 
 end Sedpack.Drv
